@@ -22,7 +22,9 @@
 
   Time is abstracted to enabledness: an in-flight transition holds the transition
   mutex, so `timer` and `devStop` are enabled only when nothing is in flight; replies of
-  an in-flight transition arrive one by one (`reply`), then it ends (`finish`).
+  an in-flight transition arrive one by one (`arrive`), each queues a task-state update
+  that is applied at any later moment (`apply`), and the transition ends when all
+  replies are in (`finish`).
   Core only.
 -/
 import ControlModel.Model.RoleTree
@@ -86,7 +88,7 @@ inductive Watch where
 structure Inflight where
   ev : Ev
   api : Bool                          -- ControlEnvironment (failure ⇒ GO_ERROR) or bare TryTransition
-  pending : List (List Nat × TState)  -- task replies still to arrive: leaf path, reported state
+  pending : List (List Nat × TState)  -- command replies still to ARRIVE: leaf path, reported state
   ok : Bool                           -- outcome of the task-level body once all replies are in
   deriving Repr, Inhabited
 
@@ -96,6 +98,7 @@ structure Sys where
   hooks : List Hook := []
   w : Watch := .parked
   inflight : Option Inflight := none
+  updq : List (List Nat × TState) := []  -- replies that arrived: `go updateTaskState(…)` goroutines not yet run (unordered)
   stopReq : Nat := 0                -- STOP_ACTIVITY requests queued by handleDeviceEvent
   roleOnly : List (List Nat × TState) := []  -- leaves whose ROLE was told ERROR directly, with the task's own state
   dropped : Nat := 0                -- ERROR notifications that found the watcher away from its receive
@@ -163,18 +166,23 @@ def taskRunning (s : Sys) (l : List Nat × TState × TStatus) : Bool :=
 def setLeaves (s : Sys) (ps : List (List Nat)) (v : TState) (ready : Bool) : Sys :=
   ps.foldl (fun acc p => setLeaf acc p v ready) s
 
-/-- Internal (non-input) steps. -/
+/-- Internal (non-input) steps. A command reply does two independent things: it counts for
+    the transition (`arrive`; the transition ends when all replies are in, `finish`) and it
+    queues a `go updateTaskState` (`apply k`: the k-th queued goroutine runs — any order,
+    also after the transition has ended). -/
 inductive Label where
-  | reply (ready : Bool)          -- next reply of the in-flight transition arrives
+  | arrive                        -- next reply of the in-flight transition arrives
+  | apply (k : Nat) (ready : Bool) -- a queued task-state update is applied
   | finish                        -- the in-flight transition ends and releases the mutex
   | devStop (ok ready : Bool)     -- a queued TryTransition(STOP_ACTIVITY) gets the mutex
   | timer                         -- the watcher's timer function gets the mutex
   deriving DecidableEq, Repr
 
 def enabled (s : Sys) : Label → Bool
-  | .reply _ => match s.inflight with
+  | .arrive => match s.inflight with
     | some i => !i.pending.isEmpty
     | none => false
+  | .apply k _ => decide (k < s.updq.length)
   | .finish => match s.inflight with
     | some i => i.pending.isEmpty
     | none => false
@@ -207,12 +215,16 @@ def devStopStep (s : Sys) (ok ready : Bool) : Sys :=
   else s1
 
 def istep (s : Sys) : Label → Sys
-  | .reply ready =>
+  | .arrive =>
     match s.inflight with
     | some i =>
       match i.pending with
-      | (p, v) :: rest => setLeaf { s with inflight := some { i with pending := rest } } p v ready
+      | pv :: rest => { s with inflight := some { i with pending := rest }, updq := s.updq ++ [pv] }
       | [] => s
+    | none => s
+  | .apply k ready =>
+    match s.updq[k]? with
+    | some (p, v) => setLeaf { s with updq := s.updq.eraseIdx k } p v ready
     | none => s
   | .finish =>
     match s.inflight with
@@ -232,7 +244,7 @@ def validRun : Sys → List Label → Bool
 
 /-- No internal step is enabled. -/
 def quiescent (s : Sys) : Bool :=
-  !enabled s (.reply true) && !enabled s .finish && !enabled s (.devStop true true) && !enabled s .timer
+  !enabled s .arrive && !enabled s (.apply 0 true) && !enabled s .finish && !enabled s (.devStop true true) && !enabled s .timer
 
 /-- Upper bound on the number of internal steps still possible. -/
 def Watch.weight : Watch → Nat
@@ -240,17 +252,35 @@ def Watch.weight : Watch → Nat
 
 def budget (s : Sys) : Nat :=
   (match s.inflight with
-   | some i => i.pending.length + 1
-   | none => 0) + s.stopReq + s.w.weight
+   | some i => 2 * i.pending.length + 1
+   | none => 0) + s.updq.length + s.stopReq + s.w.weight
 
 /-- The schedule the wall clock produces (replies, end of the transition, the queued STOP,
     then — 500 ms later — the timer), every notification finding the watcher at its receive. -/
 def pick (s : Sys) : Option Label :=
-  if enabled s (.reply true) then some (.reply true)
+  if enabled s .arrive then some .arrive
+  else if enabled s (.apply 0 true) then some (.apply 0 true)
   else if enabled s .finish then some .finish
   else if enabled s (.devStop true true) then some (.devStop true true)
   else if enabled s .timer then some .timer
   else none
+
+/-- The same, but queued state updates run last (the transition can end, and the timer
+    function can look at the tasks' states, before a reply's update has been applied). -/
+def pickLate (s : Sys) : Option Label :=
+  if enabled s .arrive then some .arrive
+  else if enabled s .finish then some .finish
+  else if enabled s (.devStop true true) then some (.devStop true true)
+  else if enabled s .timer then some .timer
+  else if enabled s (.apply 0 true) then some (.apply 0 true)
+  else none
+
+def settleLate : Nat → Sys → Sys
+  | 0, s => s
+  | n + 1, s =>
+    match pickLate s with
+    | some l => settleLate n (istep s l)
+    | none => s
 
 def settle : Nat → Sys → Sys
   | 0, s => s
